@@ -27,7 +27,8 @@ RULE = (
 )
 ASSUMPTIONS = ["when a default is re-registered, a runtime created while the earlier default was registered may serve either (the statement does not say); a runtime that predates the first registration must serve the current one"]
 FLOORS = {"programs": (15000, 150000), "runs_compared": (60000, 600000), "exits_by_exception": (3000, 30000),
-          "reentered_active": (600, 6000), "started_without_runtime": (4000, 40000), "late_defaults": (3000, 30000), "default_reregistrations": (800, 8000)}
+          "reentered_active": (600, 6000), "started_without_runtime": (4000, 40000), "late_defaults": (3000, 30000), "default_reregistrations": (800, 8000),
+          "succession_threads": (3500, 35000), "succession_threads_without_runtime": (2000, 20000)}
 SHARDS_QUICK = 4
 
 
@@ -296,7 +297,99 @@ def run_one(ctx, program, tag):
         ctx.sample(program, limit=3)
 
 
+def succession(ctx, r, case):
+    """Several threads one AFTER the other (each joined before the next starts, so thread identifiers are recycled)
+    over the SAME request types: a thread that neither enters nor inherits anything has no runtime yet and must be
+    served by the defaults registered NOW (TypeError if none) - whatever earlier, finished threads entered, inherited
+    or were served with; a thread that inherits sees its parent's current runtime; blocks inside a thread restore."""
+    types = make_types()
+    rt.handle_by_default(types["T0"], tagger("default0"))
+    defaults = {"T0": {"default0"}}  # T -> tags registered so far (last = current)
+    current = {"T0": "default0"}
+    threads, script = [], []
+    n_rereg = 0
+    W = {"family": "succession", "case": case, "shard": ctx.shard, "shards": ctx.shards, "script": script}
+    try:
+        for step in range(r.choice([2, 3, 4, 5])):
+            if r.random() < 0.45:
+                n_rereg += 1
+                T = r.choice(["T0", "T1"])
+                tag = f"reg{n_rereg}"
+                rt.handle_by_default(types[T], tagger(tag))
+                defaults.setdefault(T, set()).add(tag)
+                current[T] = tag
+                script.append(["register-default", T, tag])
+            mode = r.choice(["plain", "plain", "inherit-in-block", "inherit-outside", "plain-while-parent-in-block"])
+            blk_T, blk_tag = r.choice(["T1", "T2"]), r.choice(TAGS)
+            inner_T, inner_tag = r.choice(["T0", "T1", "T2"]), r.choice(TAGS)
+            parent = threading.current_thread()
+            got = {}
+
+            def ask(T):
+                try:
+                    return types[T]().run()
+                except TypeError:
+                    return "TypeError"
+                except Exception as e:  # noqa: BLE001
+                    return f"{type(e).__name__}: {e}"
+
+            def child():
+                if mode.startswith("inherit"):
+                    rt.inherit(parent)
+                got["first"] = {T: ask(T) for T in ("T0", "T1", "T2")}
+                with rt.handle(types[inner_T], tagger(inner_tag)):
+                    got["inside"] = {T: ask(T) for T in ("T0", "T1", "T2")}
+                got["after"] = {T: ask(T) for T in ("T0", "T1", "T2")}
+
+            t = threading.Thread(target=child, name=f"c14-succ-{step}")
+            threads.append(t)
+            if mode in ("inherit-in-block", "plain-while-parent-in-block"):
+                with rt.handle(types[blk_T], tagger(blk_tag)):
+                    t.start()
+                    t.join(30)
+            else:
+                t.start()
+                t.join(30)
+            script.append(["thread", mode, [blk_T, blk_tag], [inner_T, inner_tag]])
+            if t.is_alive():
+                ctx.inconclusive.append("a C14 succession thread did not finish within 30 s")
+                return
+            ctx.count("succession_threads")
+            ctx.evaluations += 9
+            held = {blk_T: blk_tag} if mode == "inherit-in-block" else {}
+            for phase in ("first", "inside", "after"):
+                for T in ("T0", "T1", "T2"):
+                    if phase == "inside" and T == inner_T:
+                        exp = {inner_tag}
+                    elif T in held:
+                        exp = {held[T]}
+                    elif mode.startswith("inherit"):
+                        # the parent's base runtime may predate a re-registration (either default is acceptable then)
+                        exp = set(defaults.get(T, ())) or {"TypeError"}
+                        if T in current and len(defaults[T]) == 1:
+                            exp = {current[T]}
+                    else:
+                        exp = {current.get(T, "TypeError")}
+                    a = got.get(phase, {}).get(T)
+                    if a not in exp:
+                        ctx.violation("thread-succession", f"thread {step} ({mode}) asked {T} {phase} its own block: answered by {a!r}, expected {sorted(exp)}; "
+                                      f"defaults now {current}", W)
+                        return
+            if mode.startswith("plain"):
+                ctx.count("succession_threads_without_runtime")
+            if mode.startswith("plain") and n_rereg:
+                ctx.nontrivial(spec_hash(["succession", script]))
+    finally:
+        with rt.lock:
+            for t in threads:
+                rt._RUNTIMES.pop(t, None)
+            for T in types.values():
+                rt._DEFAULT_HANDLERS.pop(T, None)
+
+
 def run(ctx):
+    for i in range(ctx.n(1200, 12000)):
+        succession(ctx, case_rng(ctx, ("succ", i)), i)
     if ctx.shard == 0:
         for p in DIRECTED:
             run_one(ctx, p, "directed")
@@ -307,4 +400,9 @@ def run(ctx):
 
 
 def replay(ctx, rep):
+    w = rep["witness"]
+    if w.get("family") == "succession":
+        ctx.shard, ctx.shards = w.get("shard", 0), w.get("shards", 1)
+        succession(ctx, case_rng(ctx, ("succ", w["case"])), w["case"])
+        return
     run_one(ctx, rep["witness"]["program"], "replay")
